@@ -145,6 +145,28 @@ func (vc *VC) verifyFunction() {
 			vc.unsupportedf(fi.Body.Pos(), "start-at-loop %d: no such top-level loop", n)
 			return
 		}
+		// deferred calls registered in the skipped code run at every exit of the function, i.e. inside the part that IS verified.
+		// The cut assumes they do not touch the modelled state (A7); so their number is part of the contract ("option cut-defers N",
+		// default 0): a new defer in the skipped code makes the view unverifiable instead of being silently ignored.
+		nDefers := 0
+		for _, sk := range stmts[:idx] {
+			ast.Inspect(sk, func(nd ast.Node) bool {
+				if _, isLit := nd.(*ast.FuncLit); isLit {
+					return false
+				}
+				if _, isDefer := nd.(*ast.DeferStmt); isDefer {
+					nDefers++
+					return false
+				}
+				return true
+			})
+		}
+		wantDefers := 0
+		fmt.Sscanf(ct.Options["cut-defers"], "%d", &wantDefers)
+		if nDefers != wantDefers {
+			vc.unsupportedf(fi.Body.Pos(), "start-at-loop %d: the skipped code registers %d deferred call(s), the contract allows %d (option cut-defers)", n, nDefers, wantDefers)
+			return
+		}
 		for _, sk := range stmts[:idx] {
 			ast.Inspect(sk, func(nd ast.Node) bool {
 				if _, isLit := nd.(*ast.FuncLit); isLit {
